@@ -1,8 +1,129 @@
-From OV.C01 Require Import Model Spec.
-From Coq Require Import List ZArith.
+(* C01 — handles release each backend object exactly once, for any handle history.
+   Statements only; proofs are in Proofs.v (and the files it imports).  Vocabulary: Model.v
+   (cells, step, run, ring_list, the code variants fixed/pinned), Statements.v (Wf, wrapper,
+   kept_alive), Inv.v (home, is_obj_tag, is_h_tag). *)
+From Coq Require Import List Arith Bool ZArith.
+From OV.C01 Require Import Model Spec Inv Statements Proofs.
 Import ListNotations.
-Definition vk (v : nat) : kind := if Nat.ltb v 2 then KDev else if Nat.ltb v 7 then KMem else KPool.
-Example swap_witness_refuted :
-  run pinned vk [ONewDev 0; OMalloc 2 0 64; OMalloc 3 0 64; OSwap 2 3; ODrop 3; ODrop 2] init = None.
+
+(* The theorems hold for every assignment of static C++ types to handle variables. *)
+
+(* the initial heap is well formed *)
+Theorem wf_init : Wf init.
+Proof. exact (wf_init_thm (fun _ => KDev)). Qed.
+Print Assumptions wf_init.
+
+(* from every reachable state every operation runs without undefined behaviour and leaves every
+   ring equal to the set of live cells that point to its owner, no wrapper or child pointing to a
+   destroyed object, and the destructor log duplicate free *)
+Theorem wf_step : forall (vkind : nat -> kind) (s : st) (o : op),
+  (exists ops, run fixed vkind ops init = Some s) ->
+  exists r s', step fixed vkind o s = Some (r, s') /\ Wf s' /\ (exists ops, run fixed vkind ops init = Some s').
+Proof. exact wf_step_thm. Qed.
+Print Assumptions wf_step.
+
+Theorem wf_run : forall (vkind : nat -> kind) (ops : list op),
+  exists s, run fixed vkind ops init = Some s /\ Wf s.
+Proof. exact wf_run_thm. Qed.
+Print Assumptions wf_run.
+
+(* no history ever dereferences a destroyed wrapper or object, deletes an object twice, erases a
+   missing reservation or spins in a ring loop (every such step yields None in the model) *)
+Theorem no_touch_after_destroy : forall (vkind : nat -> kind) (ops : list op),
+  run fixed vkind ops init <> None.
+Proof. exact no_touch_after_destroy_thm. Qed.
+Print Assumptions no_touch_after_destroy.
+
+(* a destructor runs at most once per object, and exactly once as soon as no live wrapper points to
+   an object whose reference counting is in force *)
+Theorem destroyed_exactly_once : forall (vkind : nat -> kind) (ops : list op) (s : st),
+  run fixed vkind ops init = Some s ->
+  (forall o, count_occ Nat.eq_dec (dlog s) o <= 1) /\
+  (forall o k, tagof s o = TO k -> k <> KBuf -> ouse s o = true ->
+     (forall h, wrapper s h -> hptr s h <> Some o) -> count_occ Nat.eq_dec (dlog s) o = 1).
+Proof. exact destroyed_exactly_once_thm. Qed.
+Print Assumptions destroyed_exactly_once.
+
+(* free() through any variable destroys the object (once) and leaves no live wrapper pointing to it *)
+Theorem free_uninitializes_all : forall (vkind : nat -> kind) (ops : list op) (s : st) (v h o : nat),
+  run fixed vkind ops init = Some s -> vars s v = Some h -> hptr s h = Some o ->
+  exists s', step fixed vkind (OFree v) s = Some (Done, s') /\
+    alive s' o = false /\ count_occ Nat.eq_dec (dlog s') o = 1 /\
+    (forall h', wrapper s' h' -> hptr s' h' <> Some o).
+Proof. exact free_uninitializes_all_thm. Qed.
+Print Assumptions free_uninitializes_all.
+
+(* once every variable has been dropped, an object is alive only if dontUseRefs() pinned it, or it is
+   the current stream of a live (pinned) device, or - for buffers - a live memory or pool owns it *)
+Theorem no_leak : forall (vkind : nat -> kind) (ops : list op) (s : st),
+  run fixed vkind ops init = Some s -> (forall v, vars s v = None) ->
+  forall o k, alive s o = true -> tagof s o = TO k -> kept_alive s o k.
+Proof. exact no_leak_thm. Qed.
+Print Assumptions no_leak.
+
+(* ---------------------------------------------------------------- the code before the fixes *)
+(* static types of the variables used by the drivers: D0 D1 M0..M4 P0..P2 K0 K1 S0..S2 T0 T1 *)
+Definition vk (v : nat) : kind :=
+  if Nat.ltb v 2 then KDev else if Nat.ltb v 7 then KMem else if Nat.ltb v 10 then KPool
+  else if Nat.ltb v 12 then KKer else if Nat.ltb v 15 then KStr else KTag.
+
+Definition only_swap_unfixed  := {| v_swap := false; v_byref := true;  v_inner := true |}.
+Definition only_free_unfixed  := {| v_swap := true;  v_byref := false; v_inner := false |}.
+Definition byref_without_detach := {| v_swap := true;  v_byref := true;  v_inner := false |}.
+
+(* memory::swap exchanged the pointers but not the ring membership: a = malloc; b = malloc;
+   a.swap(b); delete b; delete a  touches the freed wrapper b *)
+Theorem swap_leak_refuted :
+  run only_swap_unfixed vk [ONewDev 0; OMalloc 2 0 64; OMalloc 3 0 64; OSwap 2 3; ODrop 3; ODrop 2] init = None.
 Proof. vm_compute. reflexivity. Qed.
-Print Assumptions swap_witness_refuted.
+Print Assumptions swap_leak_refuted.
+
+Theorem pool_swap_refuted :
+  run only_swap_unfixed vk [ONewDev 0; OPool 7 0; OPool 8 0; OSwap 7 8; ODrop 8; ODrop 7] init = None.
+Proof. vm_compute. reflexivity. Qed.
+
+(* device.free() with a live pool: freeRing walked a copy of the ring and deleted the pool's buffer
+   after the pool had deleted it *)
+Theorem device_free_with_pool_refuted :
+  run only_free_unfixed vk [ONewDev 0; OPool 7 0; OReserve 2 7; OFree 0] init = None.
+Proof. vm_compute. reflexivity. Qed.
+Print Assumptions device_free_with_pool_refuted.
+
+(* taking the ring by reference alone is not enough: when the pool's buffer precedes the pool in
+   the device ring the buffer is deleted twice *)
+Theorem byref_without_detach_refuted :
+  run byref_without_detach vk [ONewDev 0; OMalloc 2 0 16; OPool 7 0; OReserve 3 7; OFree 2; OFree 0] init = None.
+Proof. vm_compute. reflexivity. Qed.
+Print Assumptions byref_without_detach_refuted.
+
+Theorem pinned_refuted :
+  run pinned vk [ONewDev 0; OMalloc 2 0 64; OMalloc 3 0 64; OSwap 2 3; ODrop 3; ODrop 2] init = None /\
+  run pinned vk [ONewDev 0; OPool 7 0; OReserve 2 7; OFree 0] init = None.
+Proof. split; vm_compute; reflexivity. Qed.
+
+(* ---------------------------------------------------------------- non-vacuity *)
+Definition after (V : variant) (ops : list op) (f : st -> bool) : bool :=
+  match run V vk ops init with Some s => f s | None => false end.
+
+(* the same histories on the fixed code end with nothing alive *)
+Example swap_fixed_clean :
+  after fixed [ONewDev 0; OMalloc 2 0 64; OMalloc 3 0 64; OSwap 2 3; ODrop 3; ODrop 2; ODrop 0]
+        (fun s => Nat.eqb (live_count s KMem) 0 && Nat.eqb (live_count s KBuf) 0 && Nat.eqb (live_count s KDev) 0
+                  && Nat.eqb (length (dlog s)) 6) = true.
+Proof. vm_compute. reflexivity. Qed.
+
+Example device_free_fixed_clean :
+  after fixed [ONewDev 0; OMalloc 2 0 16; OPool 7 0; OReserve 3 7; OFree 2; OFree 0]
+        (fun s => Nat.eqb (live_count s KMem) 0 && Nat.eqb (live_count s KBuf) 0 && Nat.eqb (live_count s KPool) 0
+                  && Nat.eqb (live_count s KDev) 0) = true.
+Proof. vm_compute. reflexivity. Qed.
+
+(* a reachable state with an object shared by three wrappers, to which free_uninitializes_all applies *)
+Example shared_then_free :
+  after fixed [ONewDev 0; OMalloc 2 0 64; OCopy 3 2; OCopy 4 2]
+        (fun s => match vars s 2 with
+                  | Some h => match hptr s h with
+                              | Some o => Nat.eqb (length (ring_list s o SH)) 3
+                              | None => false end
+                  | None => false end) = true.
+Proof. vm_compute. reflexivity. Qed.
